@@ -24,6 +24,7 @@ package standard
 // relay numbers), or neither ("nilnil").  A panic in the goroutine of Propose is recorded as Crash.
 
 import (
+	"math/big"
 	"context"
 	"encoding/json"
 	"errors"
@@ -65,6 +66,10 @@ const (
 )
 
 var c05WSerial atomic.Uint64
+
+// c05WExcludedBuilder is the builder the block relay service's catalogue excludes (main.go: obtainBuilderConfigs,
+// blockrelay.excluded-builders).
+var c05WExcludedBuilder = phase0.BLSPubKey{0xee, 0xee, 0x01}
 
 // c05ChainTime is the virtual chain time with per-slot start instants: the deadline strategy derives its
 // deadline from StartOfSlot(slot), and a bid must carry that time stamp.
@@ -180,7 +185,7 @@ func (r *c05WRelay) Pubkey() *phase0.BLSPubKey { return nil }
 
 // c05WBid builds a real bid: the relays TLC names as Providers offer the highest value with one and the
 // same header, the others less (each its own header).
-func (r *c05WRelay) bid(run *c05Run, opts *builderapi.BuilderBidOpts) *builderspec.VersionedSignedBuilderBid {
+func (r *c05WRelay) bid(run *c05Run, opts *builderapi.BuilderBidOpts, excluded bool) *builderspec.VersionedSignedBuilderBid {
 	top := r.n-1 < len(run.sc.Auction.Providers) && run.sc.Auction.Providers[r.n-1]
 	value, hdr := uint64(1000+r.n), byte(r.n)
 	if top {
@@ -188,6 +193,9 @@ func (r *c05WRelay) bid(run *c05Run, opts *builderapi.BuilderBidOpts) *buildersp
 	}
 	var builder phase0.BLSPubKey
 	builder[0], builder[1] = 0xb1, hdr
+	if excluded {
+		builder = c05WExcludedBuilder
+	}
 	return &builderspec.VersionedSignedBuilderBid{
 		Version: consensusspec.DataVersionDeneb,
 		Deneb: &builderdeneb.SignedBuilderBid{
@@ -218,6 +226,7 @@ func (r *c05WRelay) BuilderBid(ctx context.Context, opts *builderapi.BuilderBidO
 	}
 	run.hist.mu.Lock()
 	run.bidAttempts[r.n]++
+	attempt := run.bidAttempts[r.n]
 	if run.auctionOpen {
 		// (a request that arrives when AuctionBlock has returned - the deadline strategy's goroutines ask once
 		// more after the deadline - has no bearing on the auction and is not part of the record)
@@ -226,7 +235,7 @@ func (r *c05WRelay) BuilderBid(ctx context.Context, opts *builderapi.BuilderBidO
 	run.hist.mu.Unlock()
 	switch out {
 	case "bid":
-		return &builderapi.Response[*builderspec.VersionedSignedBuilderBid]{Data: r.bid(run, opts), Metadata: map[string]any{}}, nil
+		return &builderapi.Response[*builderspec.VersionedSignedBuilderBid]{Data: r.bid(run, opts, false), Metadata: map[string]any{}}, nil
 	case "err":
 		return nil, errors.New("GET failed with status 500: scripted relay failure")
 	case "silent":
@@ -235,7 +244,11 @@ func (r *c05WRelay) BuilderBid(ctx context.Context, opts *builderapi.BuilderBidO
 		<-ctx.Done()
 		return nil, ctx.Err()
 	}
-	// 204: no bid
+	// nothing this relay can win with: 204 (no bid), or - decided by scenario, relay and attempt, so that a scenario
+	// re-run alone behaves the same - the bid of a builder the operator excluded (catalogue factor 0: it takes part in the auction, scores zero, never wins)
+	if (run.hist.sc/2+r.n+attempt)%2 == 0 {
+		return &builderapi.Response[*builderspec.VersionedSignedBuilderBid]{Data: r.bid(run, opts, true), Metadata: map[string]any{}}, nil
+	}
 	return &builderapi.Response[*builderspec.VersionedSignedBuilderBid]{Metadata: map[string]any{}}, nil
 }
 
@@ -401,7 +414,11 @@ func c05Wire(t *testing.T, hist *c05Hist, h *c05History, ct *c05ChainTime) *c05W
 		standardblockrelay.WithValidatorRegistrationSigner(mocksigner.New()),
 		standardblockrelay.WithReleaseVersion("verif"),
 		standardblockrelay.WithBuilderBidProvider(strategy),
-		standardblockrelay.WithBuilderConfigs(map[phase0.BLSPubKey]*blockrelay.BuilderConfig{}),
+		standardblockrelay.WithBuilderConfigs(map[phase0.BLSPubKey]*blockrelay.BuilderConfig{
+			c05WExcludedBuilder: {Category: "excluded", Factor: big.NewInt(0)},
+		}),
+		// blockrelay.log-results (main.go: startBlockRelay) is part of the configuration the histories range over
+		standardblockrelay.WithLogResults(h.Sc%2 == 0),
 	)
 	if err != nil {
 		t.Fatalf("c05: block relay service: %v", err)
